@@ -146,6 +146,24 @@ def rule_mark(R):
     R.exact("mark/caller", ncall, 1, "call sites of the session_present marker")
 
 
+def clause_reset_unconditional(R, key):
+    """every run of the session reset discards the outbound state AND advances the generation: neither may depend on
+    what happened to be in flight (a reset that skips the bump when nothing is queued leaves completed handles valid in
+    the next session, where packet identifiers start again at 1)"""
+    f = R.f
+    rst = outq.session_reset(f)
+    clr = outq.role_fn(f, "clear")
+    cbs = [c.bb for c in outq.calls_to(f, rst, clr)]
+    gbs = [bb for (bb, j, dst, rv, s) in rst.stores() if bb in rst.reachable
+           and any(isinstance(e, dict) and e.get("name") == "generation" for e in dst["proj"])]
+    ok_c = bool(cbs) and rst.must_pass([0], rst.returns, via_blocks=cbs)[0]
+    ok_g = bool(gbs) and rst.must_pass([0], rst.returns, via_blocks=gbs)[0]
+    R.ob(key, ok_c and ok_g,
+         "the session reset clears the outbound state and advances the generation on EVERY path (%s)"
+         % ("both unconditional" if ok_c and ok_g else ("the generation bump can be skipped" if ok_c else "the clearing can be skipped")),
+         where=rst.span)
+
+
 def rule_reset(R):
     f = R.f
     call, hb, hcode = roles.handshake(f)
@@ -198,6 +216,7 @@ def rule_reset(R):
     okg = okg and all(any(x[0] == "field" and x[2] == "generation" for x in walk(v)) for _, v in gen)
     R.ob("reset/bumps-generation", okg and len(gen) == 1,
          "the reset advances the generation counter (earlier operation handles report invalidated)", where=rst.span)
+    clause_reset_unconditional(R, "reset/unconditional")
     # generation is written nowhere else
     for (b, bb, j, dst, rv, s, final) in f.field_stores(SDATA, "generation"):
         R.ob("reset/generation-writer/%s" % b.fn_name, b.name == rst.name,
